@@ -245,7 +245,9 @@ func c18Area(rec *c18Rec, vs []s2.Point, cls, desc string, expected, tol float64
 		map[string]any{"ev": "area", "area": c18K(area), "lo": c18K(expected - tol), "hi": c18K(expected + tol),
 			"norm": l.IsNormalized(), "ta": c18K(l.TurningAngle()), "w2": w2, "tri": tri, "inv": inv,
 			"after":   []any{ln.IsNormalized(), c18Boundary(ln.Vertices(), vs)},
-			"twopilo": c18K(2*math.Pi - herr), "twopihi": c18K(2*math.Pi + herr)})
+			"twopilo": c18K(2*math.Pi - herr), "twopihi": c18K(2*math.Pi + herr),
+			// Gauss-Bonnet: turning angle = 2*pi - area, within turningAngleMaxError + the area error
+			"gblo": c18K(2*math.Pi - area - herr), "gbhi": c18K(2*math.Pi - area + herr)})
 }
 
 // ---------------------------------------------------------------- W2
@@ -339,7 +341,12 @@ func opC18W2(raw json.RawMessage, o *Out) {
 		if all {
 			name = "loop/w2" + deep
 		}
-		tol := c18SmallTol(2*len(vs)+2*ncell, exp, float64(c18GridPoint(c.F, c.G, c.A[0], c.A[1]).Distance(c18GridPoint(c.F, c.G, c.A[0]+1, c.A[1]))))
+		// with a vertex at every grid corner the fan contains exactly collinear (zero-area) triangles whose
+		// computed area is rounding noise of up to ~1e-15 each: only the absolute bound applies there
+		tol := c18AreaTol(2*len(vs)+2*ncell, exp)
+		if !all {
+			tol = c18SmallTol(2*len(vs)+2*ncell, exp, float64(c18GridPoint(c.F, c.G, c.A[0], c.A[1]).Distance(c18GridPoint(c.F, c.G, c.A[0]+1, c.A[1]))))
+		}
 		c18Turn(rec, vs, name, desc, rnd)
 		c18Area(rec, vs, name, desc, exp, tol, [][]int{shell}, nil, false)
 		c18Area(rec, c18Rev(vs), name+"/reversed", desc+" reversed", 4*math.Pi-exp, tol, [][]int{shell}, nil, true)
@@ -351,7 +358,7 @@ func opC18W2(raw json.RawMessage, o *Out) {
 			rec.add(sub, name+"/Invert()", desc, map[string]any{"ev": "area", "area": c18K(li.Area()),
 				"lo": c18K(lr.Area() - tol), "hi": c18K(lr.Area() + tol), "norm": li.IsNormalized(), "ta": c18K(li.TurningAngle()),
 				"w2": [][]int{shell}, "tri": []emb.P3{}, "inv": true, "after": []any{true, "reversed"},
-				"twopilo": c18K(0), "twopihi": c18K(4 * math.Pi)})
+				"twopilo": c18K(0), "twopihi": c18K(4 * math.Pi), "gblo": c18K(-7), "gbhi": c18K(7)})
 		}
 	}
 	// centroid (integral of position) of the loop against the cells; the complement has the negated integral
